@@ -96,7 +96,7 @@ def tdvp_case(draw):
          # one time window to the next): the second call has to integrate the operator as it is then
          'op_update_in_place': draw(st.sampled_from([False, False, True])),
          # the equation is linear: an initial state of norm 3 or 0.2 evolves like one of norm 1 (not combined with normalize=2)
-         'x_norm': draw(st.sampled_from([1.0, 1.0, 3.0, 0.2]))}
+         'x_norm': draw(st.sampled_from([1.0, 1.0, 3.0, 0.2, 1e-12, 3e-10, 1e9]))}
     return c
 
 
@@ -161,6 +161,8 @@ def body_tdvp(c):
         lab.add('normalize2')
     if xn != 1.0:
         lab.add('initial_state_not_normalised')
+    if xn < 1e-8 or xn > 1e8:
+        lab.add('state_norm_near_threshold_or_huge')
     cap = kw.get('max_rank', 50)
     th = kw.get('threshold', 1e-12)
     truncating = m != 'tdvp1site' and ((cap < max(mr) and not product) or th > 1e-12)
@@ -186,26 +188,26 @@ def body_tdvp(c):
             lim = max(cap, max(x0.ranks))
             require(max(s.ranks) <= lim, 'rank_cap', 'ranks %s exceed max_rank %s' % (s.ranks, cap))
         if maximal and not truncating:
-            close(got, v, 1e-10, max(xn, 1.0), 'exact_at_full_rank', '%s state %d vs expm(-i t H) x0' % (m, k))
+            close(got, v, 1e-10, xn, 'exact_at_full_rank', '%s state %d vs expm(-i t H) x0' % (m, k))
         if c.get('normalize', 0) == 2:
             require(abs(np.linalg.norm(got) - 1) <= 1e-9, 'unit_norm', 'normalize=2: state %d has norm %.12f' % (k, np.linalg.norm(got)))
         if m != 'tdvp1site' and not truncating and cap >= max(mr):
             # two-site / hybrid sweeps without any truncation are compositions of unitary local steps in orthonormal frames:
             # norm and energy are conserved exactly as for the one-site scheme (checked only when nothing is cut)
-            require(abs(np.linalg.norm(got) - xn) <= 1e-9 * max(xn, 1.0), 'norm_conserved_untruncated', '%s step %d: norm %.12f' % (m, k, np.linalg.norm(got)))
+            require(abs(np.linalg.norm(got) - xn) <= 1e-9 * xn, 'norm_conserved_untruncated', '%s step %d: norm %.12f' % (m, k, np.linalg.norm(got)))
             e = np.real(np.vdot(got, H @ got))
-            require(abs(e - e0) <= 1e-9 * max(xn * xn, 1.0), 'energy_conserved_untruncated', '%s step %d: energy %.12f, initially %.12f' % (m, k, e, e0))
+            require(abs(e - e0) <= 1e-9 * xn * xn, 'energy_conserved_untruncated', '%s step %d: energy %.12f, initially %.12f' % (m, k, e, e0))
         if m == 'tdvp1site':
-            require(abs(np.linalg.norm(got) - xn) <= 1e-9 * max(xn, 1.0), 'norm_conserved', 'step %d: norm %.12f' % (k, np.linalg.norm(got)))
+            require(abs(np.linalg.norm(got) - xn) <= 1e-9 * xn, 'norm_conserved', 'step %d: norm %.12f' % (k, np.linalg.norm(got)))
             e = np.real(np.vdot(got, H @ got))
-            require(abs(e - e0) <= 1e-9 * max(xn * xn, 1.0), 'energy_conserved', 'step %d: energy %.12f, initially %.12f' % (k, e, e0))
+            require(abs(e - e0) <= 1e-9 * xn * xn, 'energy_conserved', 'step %d: energy %.12f, initially %.12f' % (k, e, e0))
     if c.get('op_update_in_place') and maximal and not truncating and all(cc.flags.writeable for cc in op.cores):
         kk = c['seed'] % d
         op.cores[kk] *= 2.0
         sol2 = getattr(ode, m)(op, x0, c['h'], 1, **kw)
         require(isinstance(sol2, list) and len(sol2) == 2, 'length', '%d states for 1 step' % len(sol2))
         got2 = dense.matrix(sol2[1].cores).reshape(-1)
-        close(got2, sla.expm(-1j * c['h'] * 2.0 * H) @ v0, 1e-10, max(xn, 1.0), 'exact_at_full_rank',
+        close(got2, sla.expm(-1j * c['h'] * 2.0 * H) @ v0, 1e-10, xn, 'exact_at_full_rank',
               '%s with the same operator object after its core %d was doubled in place vs expm(-i t 2H) x0' % (m, kk))
         lab.add('operator_updated_in_place')
     return lab
